@@ -69,13 +69,14 @@ Definition full_geometry (P : pspec) (e : effect) : bool :=
         (g_xs g =? 0) && (g_xe g =? R - 1) && (g_ys g =? 0) && (g_ye g =? cp_H cp - 1) &&
         (g_xc g =? 0) && (g_yc g =? 0)
       else if g_entry g =? 1 then
-        (* 7.5in HD: Y-decrement scan as set up by its vendor-derived init (unverified map) *)
-        (g_xs g =? 0) && (g_xe g =? R - 1) && (g_ys g =? 687) && (g_ye g =? 0) &&
-        (g_xc g =? 0) && (g_yc g =? 0)
+        (* 7.5in HD: Y-decrement scan as set up by its vendor-derived init.  The row map of this scan
+           (a 688-row Y window for a 528-row panel) is UNVERIFIED, so nothing is required of the row
+           the burst starts at; only the window the init programmed and the column start *)
+        (g_xs g =? 0) && (g_xe g =? R - 1) && (g_ys g =? 687) && (g_ye g =? 0) && (g_xc g =? 0)
       else false
   | EBurstUc c _ a _ =>
-      negb (a_partial a) && (a_x0 a =? 0) && (a_x1 a =? cp_rowbytes cp - 1) && (a_y0 a =? 0) &&
-      (a_y1 a =? cp_H cp - 1)
+      (* the full resolution, or a partial window that is exactly the whole panel *)
+      (a_x0 a =? 0) && (a_x1 a =? cp_rowbytes cp - 1) && (a_y0 a =? 0) && (a_y1 a =? cp_H cp - 1)
   | _ => false
   end.
 
@@ -135,22 +136,45 @@ Definition chk_display (es : list effect) : list clause :=
 (** ** C07: clear_frame *)
 (** [fill c] = the byte a uniform frame of the current background produces in the plane written by
     command [c] (None: no expectation on the value, only uniformity) *)
+Definition pattern_cmd (pl : plane) : N := match pl with P1 => 0x24 | P2 => 0x26 end.
+Definition full_pattern (P : pspec) (g : geom) : bool :=
+  (g_xs g =? 0) && (g_xe g =? cp_rowbytes (ps_cp P) - 1) && (g_ys g =? 0) && (g_ye g =? cp_H (ps_cp P) - 1).
+(** plane commands written by the call: data runs, and SSD pattern fills (which write the plane the
+    pattern command addresses, uniformly, over the current window) *)
+Definition writes_plane (c : N) (e : effect) : bool :=
+  match e with
+  | EBurstSsd c' _ _ _ | EBurstUc c' _ _ _ => c' =? c
+  | EPattern _ pl _ _ => pattern_cmd pl =? c
+  | _ => false
+  end.
+Definition written_cmd (e : effect) : option N :=
+  match e with
+  | EBurstSsd c _ _ _ | EBurstUc c _ _ _ => Some c
+  | EPattern _ pl _ _ => Some (pattern_cmd pl)
+  | _ => None
+  end.
 Definition chk_c07 (P : pspec) (sm : sem) (primary : N) (fill : option N) (es : list effect) : list clause :=
-  let bs := filter (fun e => match burst_cmd e with Some _ => true | None => false end) es in
-  (if existsb (is_burst_for primary) bs then [] else [ClNoBurst primary]) ++
+  let bs := filter (fun e => match written_cmd e with Some _ => true | None => false end) es in
+  (if existsb (writes_plane primary) bs then [] else [ClNoBurst primary]) ++
   flat_map (fun b =>
-    match burst_cmd b with
+    match written_cmd b with
     | None => []
     | Some c =>
-        (if Nat.eqb (length (filter (is_burst_for c) bs)) 1 then [] else [ClManyBursts c]) ++
-        (if full_geometry P b then [] else [ClGeometry c]) ++
-        (if segslen (burst_segs b) =? plane_size P c then [] else [ClLength c (segslen (burst_segs b))]) ++
-        (match sm_uniform sm (burst_segs b) with
-         | None => [ClNotUniform c]
-         | Some v => if c =? primary then
-                       match fill with Some f => if v =? f then [] else [ClFillValue c v] | None => [] end
-                     else []
-         end)
+        (if Nat.eqb (length (filter (writes_plane c) bs)) 1 then [] else [ClManyBursts c]) ++
+        match b with
+        | EPattern _ _ g v =>
+            (if full_pattern P g then [] else [ClGeometry c])
+            (* the fill value of a pattern is a phase bit, not a byte: only uniformity is claimed *)
+        | _ =>
+            (if full_geometry P b then [] else [ClGeometry c]) ++
+            (if segslen (burst_segs b) =? plane_size P c then [] else [ClLength c (segslen (burst_segs b))]) ++
+            (match sm_uniform sm (burst_segs b) with
+             | None => [ClNotUniform c]
+             | Some v => if c =? primary then
+                           match fill with Some f => if v =? f then [] else [ClFillValue c v] | None => [] end
+                         else []
+             end)
+        end
     end) bs.
 
 (** ** C18: protocol conformance of everything a call sends *)
@@ -166,7 +190,7 @@ Definition geom_reg_ok (P : pspec) (c : N) (par : list N) : bool :=
           ((b 0%nat =? cp_W cp) && (b 1%nat =? cp_H cp)) || ((b 0%nat =? cp_H cp) && (b 1%nat =? cp_W cp))
       else true
   | Ssd =>
-      if c =? 0x01 then le16 (b 0%nat) (b 1%nat mod 2) + 1 =? cp_H cp     (* MUX = gate lines - 1 *)
+      if (c =? 0x01) && negb (cp_x16 cp) then le16 (b 0%nat) (b 1%nat mod 2) + 1 =? cp_H cp     (* MUX = gate lines - 1; the 16-bit-X chips (3.7in, 7.5in HD) scan more gates than the panel has rows in their vendor sequences: unverified, not checked *)
       else true
   end.
 
